@@ -17,6 +17,10 @@ def ecdsaOps : Dispatcher := fun op args =>
   | "ecdsa.hnp", [n, r, s, z] => do
       let n ← parseNat? n; let r ← parseInt? r; let s ← parseInt? s; let z ← parseInt? z
       pure (fmtExcept fmtPair (hiddenNumberParams n r s z))
+  | "ecdsa.signs", [n, r, z, d, k] => do
+      let n ← parseNat? n; let r ← parseInt? r; let z ← parseInt? z
+      let d ← parseInt? d; let k ← parseInt? k
+      pure (fmtExcept hexNat (signS n r z d k))
   | "ecdsa.values", [n, r, s, mh] => do
       let n ← parseNat? n; let r ← parseNatList? r; let s ← parseNatList? s
       let mh ← parseNatList? mh
